@@ -35,6 +35,9 @@ var targetFile = map[string]string{
 	"lazyTTL":      "GenRelayFwd",
 	"dcsSucceeded": "GenFrame",
 	"dcsFailMsg":   "GenFrame",
+	// C09: relay.go admission / close decisions
+	"relayCanHandleNewCall": "GenRelayFwd",
+	"relayCanClose":         "GenRelayFwd",
 }
 
 // varFields: constant fields of package-level composite-literal variables.
@@ -181,4 +184,16 @@ var targets = []Target{
 	{Func: "determinesCallSuccess", Out: "dcsFailMsg", Params: "(mt : Z) (resCode : Z) (errKey : list Z)", Ret: "list Z", RetIdx: 1,
 		Hints:  map[string]string{"f.messageType()": "mt", "isCallResOK(f)": "(isCallResOK resCode)"},
 		SHints: map[string]string{"msg := newLazyError(f).Code().MetricsKey()": "let msg := errKey in"}},
+	// relay.go (C09): Relayer.canHandleNewCall -- the admission decision taken under the connection's
+	// state read-lock (the closure runs in place; the pending increment it guards is the model's
+	// ICanHandle / IRemoteCan action) -- and Relayer.canClose (the LDrained guard of the model)
+	{Func: "Relayer.canHandleNewCall", Out: "relayCanHandleNewCall", Params: "(state : Z)", Ret: "bool", RetIdx: 0,
+		Hints: map[string]string{"r.conn.state": "state"},
+		SHints: map[string]string{
+			"var (...":                             "",
+			"r.conn.withStateRLock(...":            "inline-closure",
+			"if canHandle {\n\tr.pending.Inc()\n}": "",
+		}},
+	{Func: "Relayer.canClose", Out: "relayCanClose", Params: "(is_nil : bool) (pending : Z)", Ret: "bool",
+		Hints: map[string]string{"r == nil": "is_nil", "r.countPending()": "pending"}},
 }
